@@ -26,7 +26,14 @@ import (
 	"time"
 )
 
-const verifDir = "/verif"
+// verifDir is where the framework lives: /verif, or the snapshot a background run works in
+// (the vcheck script exports VERIF_DIR = its own directory).
+var verifDir = func() string {
+	if d := os.Getenv("VERIF_DIR"); d != "" {
+		return d
+	}
+	return "/verif"
+}()
 
 // GODEBUG=goindex=0: the module index of packages in the module cache ignores overlays; sno is
 // instrumented through the overlay, so the index is switched off.
@@ -147,7 +154,7 @@ func build(race bool) (scratch, worker, inputHash string) {
 			die("building instr: %v\n%s", err, out)
 		}
 	}
-	out, err := runCmd(verifDir, goEnv, instr, "-out", scratch,
+	out, err := runCmd(verifDir, goEnv, instr, "-out", scratch, "-rt", filepath.Join(verifDir, "rt"), "-dir", verifDir,
 		"github.com/olive-io/bpmn/v2", "github.com/olive-io/bpmn/v2/pkg/...", "github.com/olive-io/bpmn/v2/model", "github.com/muyo/sno", "github.com/muyo/sno/internal", "verif/harness/...")
 	if err != nil {
 		os.RemoveAll(scratch)
